@@ -24,7 +24,10 @@ def mname(m, kw):
     return m + ("%d" % kw["version"] if "version" in kw else "")
 
 
-ROUTES = ["%s/%s" % (e, mname(m, kw)) for e in ENTRIES for m, kw in METHODS] + ["DCM.to_q/default", "Quaternion.from_DCM/default"]
+LAYOUTS = ["F-order", "strided-view", "transposed-view", "integer", "list"]
+DERIVED = ["copy()", "T-of-transpose", "product", "view()"]
+ROUTES = ["%s/%s" % (e, mname(m, kw)) for e in ENTRIES for m, kw in METHODS] + ["DCM.to_q/default", "Quaternion.from_DCM/default"] + \
+         ["DCM(array in any layout)", "DCM object from DCM operations"]
 PIVOTS = ["pivot_tr", "pivot_r11", "pivot_r22", "pivot_r33"]
 REGIONS = dict({r: 30 for r in gens.ROT_REGIONS if r != "generic"}, **{p: 30 for p in PIVOTS},
                **{"trace_neg": 30, "isclose_band": 30})
@@ -100,6 +103,63 @@ def judge(ctx, route, method, val, R, theta, shape=(4,)):
         ctx.le("R(q) = R [closed-form class, theta <= pi-1e-6]", err, TOL_CLOSED, {"q": q, "err": err, "theta": theta}, route=route)
 
 
+def layouts(R):
+    """the same matrix values held in other memory layouts / element types (all legitimate ndarray inputs)."""
+    out = {"F-order": np.asfortranarray(R), "strided-view": np.pad(R, 1)[1:4, 1:4], "transposed-view": np.ascontiguousarray(R.T).T}
+    if np.all(R == np.round(R)):
+        out["integer"] = np.round(R).astype(int)
+    return out
+
+
+def derived(DCM, R, S):
+    """DCM objects that are results of array operations on DCM objects (the class documentation composes them with @)."""
+    return {"copy()": lambda: DCM(R.copy()).copy(), "T-of-transpose": lambda: DCM(np.ascontiguousarray(R.T)).T,
+            "product": lambda: DCM(R @ S.T) @ DCM(S.copy()), "view()": lambda: DCM(R.copy()).view()}
+
+
+def check_objects(case, ctx, R, theta):
+    """C02 quantifies over every rotation handed to DCM.to_quaternion: the matrix may arrive in any memory layout and the
+    DCM object may itself be the result of operations on DCM objects."""
+    from ahrs.common.dcm import DCM
+    S = case.p["others"][0] if len(case.p["others"]) else rq.rodrigues(np.array([0.0, 0.0, 1.0]), 0.3)
+    objs = []
+    r = "DCM(array in any layout)"
+    for nm, arr in layouts(R).items():
+        before = arr.copy()
+        out = call(lambda: DCM(arr))
+        if not ctx.returned(out, clause="no-exception[%s]" % nm, route=r):
+            continue
+        D = out.value
+        data, A_ = np.array(np.asarray(D), float), np.array(D.A, float)
+        ctx.le("the DCM object holds the matrix it was built from (array data)", np.abs(data - R).max(), 0.0, {"layout": nm, "data": data, "R": R}, route=r)
+        ctx.le("the DCM object holds the matrix it was built from (.A)", np.abs(A_ - R).max(), 0.0, {"layout": nm}, route=r)
+        ctx.ok("input array untouched", np.array_equal(arr, before), route=r)
+        objs.append((r, nm, D, R, theta))
+    r = "DCM object from DCM operations"
+    for nm, mk in derived(DCM, R, S).items():
+        out = call(mk)
+        if not ctx.returned(out, clause="no-exception[%s]" % nm, route=r):
+            continue
+        D = out.value
+        ctx.ok("result of a DCM operation is a DCM", isinstance(D, DCM), {"op": nm, "type": type(D).__name__}, route=r)
+        Re = np.array(np.asarray(D), float)
+        ctx.le("derived object holds the expected matrix", np.abs(Re - R).max(), 0.0 if nm != "product" else 4e-15, {"op": nm}, route=r)
+        objs.append((r, nm, D, Re, rq.rot_angle(Re)))
+    for r, nm, D, Re, th in objs:
+        if not isinstance(D, DCM):
+            continue
+        for m, kw in METHODS:
+            if m not in ROBUST and th > np.pi - 1e-6:
+                continue
+            out = call(lambda: D.to_quaternion(m, **kw))
+            if ctx.returned(out, clause="no-exception[%s].to_quaternion" % nm, route=r):
+                judge(ctx, r, m, out.value, Re, th)
+        out = call(lambda: (np.array(D.inv, float), np.array(D.I, float), float(D.det), np.array(D.to_angles(), float)))
+        if ctx.returned(out, clause="no-exception[%s].inv/det/to_angles" % nm, route=r):
+            ctx.le("inv and I are the transpose of the matrix held", max(np.abs(out.value[0] - Re.T).max(), np.abs(out.value[1] - Re.T).max()), 0.0, {"obj": nm}, route=r)
+            ctx.le("det = 1", abs(out.value[2] - 1.0), 1e-12, route=r)
+
+
 def check(case, ctx):
     import ahrs
     from ahrs.common import orientation as o
@@ -107,6 +167,7 @@ def check(case, ctx):
     R = build_R(case)
     theta = rq.rot_angle(R)
     R3 = np.concatenate([R[None], case.p["others"]]) if len(case.p["others"]) else R[None]
+    check_objects(case, ctx, R, theta)
     free = {"shepperd": o.shepperd, "hughes": o.hughes, "chiaverini": o.chiaverini, "itzhack": o.itzhack, "sarabandi": o.sarabandi}
     for m, kw in METHODS:
         mn = mname(m, kw)
